@@ -34,6 +34,68 @@ GR = "groups.py"
 ED = "ed25519_basic.py"
 UT = "util.py"
 
+_ITER = [(ED, '''def scalarmult_element_safe_slow(pt, n):
+    # this form is slightly slower, but tolerates arbitrary points, including
+    # those which are not in the main 1*L subgroup. This includes points of
+    # order 1 (the neutral element Zero), 2, 4, and 8.
+    assert n >= 0
+    if n==0:
+        return xform_affine_to_extended((0,1))
+    _ = double_element(scalarmult_element_safe_slow(pt, n>>1))
+    return add_elements(_, pt) if n&1 else _
+''', '''def _double_and_add(pt, n, add): # extended->extended
+    # left-to-right binary scalarmult; 'add' is one of the two addition formulas
+    assert n >= 0
+    acc = xform_affine_to_extended((0,1))
+    if n == 0:
+        return acc
+    for bit in bin(n)[2:]:
+        acc = double_element(acc)
+        if bit == "1":
+            acc = add(acc, pt)
+    return acc
+
+def scalarmult_element_safe_slow(pt, n):
+    return _double_and_add(pt, n, add_elements)
+'''), (ED, '''    assert n >= 0
+    if n==0:
+        return xform_affine_to_extended((0,1))
+    _ = double_element(scalarmult_element(pt, n>>1))
+    return _add_elements_nonunfied(_, pt) if n&1 else _
+''', '''    return _double_and_add(pt, n, _add_elements_nonunfied)
+''')]
+
+_GEN_OLD = '''    for plus in itertools.count(0):
+        y_plus = (y + plus) % Q
+        x = xrecover(y_plus)
+        Pa = [x,y_plus] # no attempt to use both "positive" and "negative" X
+
+        # only about 50% of Y coordinates map to valid curve points (I think
+        # the other half give you points on the "twist").
+        if not isoncurve(Pa):
+            continue
+
+        P = ElementOfUnknownGroup(xform_affine_to_extended(Pa))
+'''
+_GEN_NEW = '''    for P in _curve_points_from(y):
+'''
+_GEN_DEF_OLD = '''def arbitrary_element(seed): # unknown DL
+'''
+_GEN_DEF_NEW = '''def _curve_points_from(y):
+    # successive Y values, as curve points (no attempt to use both "positive"
+    # and "negative" X); only about 50% of Y coordinates are on the curve
+    for plus in itertools.count(0):
+        y_plus = (y + plus) % Q
+        Pa = [xrecover(y_plus), y_plus]
+        if isoncurve(Pa):
+            yield ElementOfUnknownGroup(xform_affine_to_extended(Pa))
+
+def arbitrary_element(seed): # unknown DL
+'''
+
+_IMASK_OLD = '    top_byte_mask_int, num_bytes = generate_mask(maxval)\n    while True:\n        enough_bytes = random_list_of_ints(num_bytes, entropy_f)\n        assert len(enough_bytes) == num_bytes\n        candidate_bytes = mask_list_of_ints(top_byte_mask_int, enough_bytes)\n        candidate_int = list_of_ints_to_number(candidate_bytes)\n'
+_IMASK_NEW = '    num_bits = size_bits(maxval)\n    num_bytes = size_bytes(maxval)\n    while True:\n        drawn = entropy_f(num_bytes)\n        assert len(drawn) == num_bytes\n        candidate_int = int.from_bytes(drawn, "big") & ((1 << num_bits) - 1)\n'
+
 CORPUS = [
     # ------------------------------------------------------------------ C07 typestate
     B("c07-restore-not-started", ["C07"], [(SP, """        g = self.params.group
@@ -931,4 +993,129 @@ def expand_password(data, num_bytes):
       base="seeded_neutral/N13", note="`or`-form mask width wrong when bits is a multiple of 8"),
     B("n16-generator-skips-second-identity", ["C02", "C17"], [(SP, "    for identity in identities:\n", "    for identity in identities[:1]:\n")],
       base="seeded_neutral/N16", tests="fail", note="generator-built transcript omits idB"),
+    # ---- modern-idiom probes (neutral): constructs a maintainer might introduce
+
+ N("p-fstring-messages", [(SP, '''                raise OffSides("I'm A, but I got a message from A (not B).")
+            else:
+                raise OffSides("I'm B, but I got a message from B (not A).")''', '''                me, peer = "A", "B"
+            else:
+                me, peer = "B", "A"
+            raise OffSides(f"I'm {me}, but I got a message from {me} (not {peer}).")''')]),
+ N("p-starred-unpack", [(SP, '''        other_side = inbound_side_and_message[0:1]
+        inbound_message = inbound_side_and_message[1:]
+
+        if other_side not in (SideA, SideB):''', '''        other_side, inbound_message = inbound_side_and_message[:1], inbound_side_and_message[1:]
+
+        if not any(other_side == s for s in (SideA, SideB)):''')]),
+ N("p-dataclass-like-params", [("params.py", '''class _Params:
+    def __init__(self, group, M=b"M", N=b"N", S=b"symmetric"):
+        self.group = group
+        self.M = group.arbitrary_element(seed=M)
+        self.N = group.arbitrary_element(seed=N)
+        self.S = group.arbitrary_element(seed=S)
+        self.M_str = M
+        self.N_str = N
+        self.S_str = S''', '''class _Params:
+    __slots__ = ("group", "M", "N", "S", "M_str", "N_str", "S_str")
+
+    def __init__(self, group, M=b"M", N=b"N", S=b"symmetric"):
+        self.group = group
+        for name, seed in zip(("M", "N", "S"), (M, N, S)):
+            setattr(self, name, group.arbitrary_element(seed=seed))
+            setattr(self, name + "_str", seed)''')]),
+ N("p-try-finally-finish", [(SP, '''        self._finished = True
+
+        self.inbound_message = self._extract_message(inbound_side_and_message)''', '''        try:
+            pass
+        finally:
+            self._finished = True
+
+        self.inbound_message = self._extract_message(inbound_side_and_message)''')]),
+ N("p-enumerate-zip-hash-params", [(SP, '''        pieces = [g.arbitrary_element(b"").to_bytes(),
+                  g.scalar_to_bytes(g.password_to_scalar(b"")),
+                  self.params.M.to_bytes(),
+                  self.params.N.to_bytes(),
+                  ]
+        return sha256(b"".join(pieces)).hexdigest()''', '''        pieces = [g.arbitrary_element(b"").to_bytes(),
+                  g.scalar_to_bytes(g.password_to_scalar(b""))]
+        pieces += map(lambda e: e.to_bytes(), (self.params.M, self.params.N))
+        h = sha256()
+        for _i, piece in enumerate(pieces):
+            h.update(piece)
+        return h.hexdigest()''')]),
+ N("p-walrus-partial", [(GR, '''        i = bytes_to_number(b)
+        if i <= 0 or i >= self.p:   # Zp* excludes 0''', '''        if (i := bytes_to_number(b)) <= 0 or i >= self.p:   # Zp* excludes 0''')]),
+ N("p-property-sizes", [(GR, '''        self.element_size_bytes = size_bytes(self.p)
+''', '''        self._element_size_bytes = size_bytes(self.p)
+'''), (GR, '''    def order(self):
+        return self.q
+''', '''    def order(self):
+        return self.q
+
+    @property
+    def element_size_bytes(self):
+        return self._element_size_bytes
+''')]),
+ N("p-dict-dispatch-blinding", [(SP, '''class SPAKE2_A(_SPAKE2_Asymmetric):
+    side = SideA
+    def my_blinding(self): return self.params.M
+    def my_unblinding(self): return self.params.N''', '''class SPAKE2_A(_SPAKE2_Asymmetric):
+    side = SideA
+    def my_blinding(self): return {"A": self.params.M, "B": self.params.N}["A"]
+    def my_unblinding(self): return {"A": self.params.M, "B": self.params.N}.get("B")''')]),
+ N("p-all-isinstance-tuple", [(SP, '''        assert isinstance(password, bytes)
+        self.pw = password''', '''        assert all(isinstance(x, (bytes,)) for x in (password,))
+        self.pw = password''')]),
+ N("p-nested-helper-closure", [(UT, '''def number_to_bytes(num, maxval):
+    if num > maxval:
+        raise ValueError
+''', '''def number_to_bytes(num, maxval):
+    def too_big(n, limit=maxval):
+        return n > limit
+    if too_big(num):
+        raise ValueError
+''')]),
+ N("p-ifexp-chain-symmetric-sides", [(SP, '''        if other_side == SideA:
+            raise OffSides("I'm Symmetric, but I got a message from A")
+        if other_side == SideB:
+            raise OffSides("I'm Symmetric, but I got a message from B")
+        assert other_side == SideSymmetric''', '''        who = "A" if other_side == SideA else ("B" if other_side == SideB else None)
+        if who is not None:
+            raise OffSides("I'm Symmetric, but I got a message from %s" % who)
+        assert other_side == SideSymmetric''')]),
+ N("p-super-init", [(SP, '''        _SPAKE2_Base.__init__(self, password,
+                              params=params, entropy_f=entropy_f)
+        self.idSymmetric''', '''        super().__init__(password, params=params, entropy_f=entropy_f)
+        self.idSymmetric''')]),
+ N("p-global-tuple-consts", [(SP, '''SideA = b"A"
+SideB = b"B"
+SideSymmetric = b"S"''', '''SideA, SideB, SideSymmetric = (bytes([c]) for c in b"ABS")''')]),
+    # ---- iterative (loop) double-and-add ladders
+
+ N("p-iterative-ladder", _ITER),
+ B("p-iterative-ladder-skips-doubling-on-zero-bit", ["C13"], [(_ITER[0][0], _ITER[0][1], _ITER[0][2].replace('''        acc = double_element(acc)
+        if bit == "1":
+            acc = add(acc, pt)''', '''        if bit == "1":
+            acc = add(double_element(acc), pt)''')), _ITER[1]]),
+ B("p-iterative-ladder-lsb-first", ["C13"], [(_ITER[0][0], _ITER[0][1], _ITER[0][2].replace("bin(n)[2:]", "bin(n)[:1:-1]")), _ITER[1]]),
+    # ---- try-and-increment written as a lazily consumed generator
+
+ N("p-generator-candidate-search", [(ED, _GEN_OLD, _GEN_NEW), (ED, _GEN_DEF_OLD, _GEN_DEF_NEW)]),
+ B("p-generator-candidate-search-starts-at-1", ["C14"], [(ED, _GEN_OLD, _GEN_NEW), (ED, _GEN_DEF_OLD, _GEN_DEF_NEW.replace("itertools.count(0)", "itertools.count(1)"))]),
+ B("p-generator-candidate-search-no-curve-test", ["C14"], [(ED, _GEN_OLD, _GEN_NEW), (ED, _GEN_DEF_OLD, _GEN_DEF_NEW.replace("        if isoncurve(Pa):\n            yield", "        if True:\n            yield"))]),
+    N("p-iterative-ladder-bit-positions", [(_ITER[0][0], _ITER[0][1], _ITER[0][2].replace("""    for bit in bin(n)[2:]:
+        acc = double_element(acc)
+        if bit == "1":""", """    for i in reversed(range(n.bit_length())):
+        acc = double_element(acc)
+        if (n >> i) & 1:""")), _ITER[1]]),
+    B("p-iterative-ladder-bit-positions-off-by-one", ["C13"], [(_ITER[0][0], _ITER[0][1], _ITER[0][2].replace("""    for bit in bin(n)[2:]:
+        acc = double_element(acc)
+        if bit == "1":""", """    for i in reversed(range(n.bit_length() - 1)):
+        acc = double_element(acc)
+        if (n >> i) & 1:""")), _ITER[1]]),
+    # ---- rejection sampling with the whole integer masked instead of the first byte
+    N("p-integer-mask-candidate", [(UT, _IMASK_OLD, _IMASK_NEW)]),
+    B("p-integer-mask-candidate-one-bit-short", ["C11", "C04"], [(UT, _IMASK_OLD, _IMASK_NEW.replace("(1 << num_bits) - 1", "(1 << (num_bits - 1)) - 1"))]),
+    B("p-integer-mask-candidate-modulo-range", ["C11", "C04"], [(UT, _IMASK_OLD, _IMASK_NEW.replace("& ((1 << num_bits) - 1)", "% maxval"))],
+      note="modulo reduction instead of masking: biased"),
 ]
